@@ -29,14 +29,16 @@ Definition sq_obj (o : ofilter) (t : tuple) : bool :=
   | OFull ty id => sq_opt_eq ty (t_otype t) && sq_opt_eq id (t_oid t)
   end.
 
-(* sqlite.go:177 read.  `if filter.User != ""`: ToUserParts, one optional predicate per part —
-   so a user filter without relation puts no constraint on user_relation. *)
+(* sqlite.go:177 read.  `if filter.User != ""`: ToUserParts; type and id get a predicate when
+   non-empty; user_relation gets one `if userRelation != "" || userObjectID != ""` (since
+   a279b76: "type:id" names the object itself; the type prefix "type:" leaves it open). *)
 Definition sq_read_user (u : ufilter) (t : tuple) : bool :=
   match u with
   | UAny => true
   | UType ty => sq_opt_eq ty (u_type (t_user t))
   | UExact x => sq_opt_eq (u_type x) (u_type (t_user t)) && sq_opt_eq (u_id x) (u_id (t_user t)) &&
-                sq_opt_eq (u_rel x) (u_rel (t_user t))
+                (if negb (beqb (u_rel x) []) || negb (beqb (u_id x) [])
+                 then sq_eq (u_rel x) (u_rel (t_user t)) else true)
   end.
 
 Definition sql_read_where (f : read_filter) (t : tuple) : bool :=
@@ -75,12 +77,12 @@ Definition sql_usersets_where (f : usersets_filter) (t : tuple) : bool :=
 Definition sql_read_userset_tuples (s : store) (f : usersets_filter) : list tuple :=
   map obs (filter (sql_usersets_where f) s).
 
-(* sqlite.go:808 ReadStartingWithUser.  Per user filter: user_object_type and user_object_id
-   always, user_relation only `if userRelation != ""`; ObjectIDs only when non-nil AND
-   Size() > 0. *)
+(* sqlite.go:808 ReadStartingWithUser.  Per user filter one sq.Eq over user_object_type,
+   user_object_id and user_relation (since a279b76 always, empty for objects and wildcards);
+   ObjectIDs only when non-nil AND Size() > 0. *)
 Definition sq_rswu_user (u : user) (t : tuple) : bool :=
   sq_eq (u_type u) (u_type (t_user t)) && sq_eq (u_id u) (u_id (t_user t)) &&
-  sq_opt_eq (u_rel u) (u_rel (t_user t)).
+  sq_eq (u_rel u) (u_rel (t_user t)).
 
 Definition sq_rswu_oids (o : option (list bytes)) (t : tuple) : bool :=
   match o with
